@@ -81,6 +81,7 @@ type Resp struct {
 	Hgen       int64      `json:"hgen"`
 	Hmetagen   int64      `json:"hmetagen"`
 	Hctype     j.B        `json:"hctype"`
+	Henc       j.B        `json:"henc"` // Content-Encoding of a media reply
 	View       View       `json:"view"`
 	HasView    bool       `json:"hasView"`
 	Body       j.B        `json:"body"`
@@ -160,8 +161,11 @@ type Op struct {
 	Method  string `json:"method,omitempty"`
 
 	// reads
-	Form  string `json:"form,omitempty"`  // api | download | public
-	Slash bool   `json:"slash,omitempty"` // send '/' of the object name unescaped in the URL path
+	AcceptGz bool   `json:"acceptGz"` // GetMedia: send Accept-Encoding: gzip (no decompressive transcoding wanted)
+	IsGz     bool   `json:"isgz"`     // Upload: Content is the gzip encoding of Plain (a fact about the codec, declared by the harness)
+	Plain    j.B    `json:"plain"`
+	Form     string `json:"form,omitempty"`  // api | download | public
+	Slash    bool   `json:"slash,omitempty"` // send '/' of the object name unescaped in the URL path
 
 	No308   bool  `json:"no308"` // ResumablePut: send X-Guploader-No-308: yes
 	Parts   []Op  `json:"parts"` // Batch: the sub-requests (Delete, GetMeta, GetBucket, Patch), each with its Content-ID
